@@ -159,3 +159,8 @@ def depth_guard(F):
     """is ErrorKind::NestTooDeep produced anywhere in crate syntax?"""
     from lib import effects as EF
     return bool(EF.constructions(F, "syntax::ErrorKind", "NestTooDeep", "syntax::"))
+
+
+def thorough(F, res):
+    from lib import pcache as _pc
+    _pc.crosscheck(F, res)
